@@ -219,7 +219,7 @@ var idlTokens = []string{"package", "interface", "struct", "enum", "end", "fn", 
 	"Vec<", "Map<", "Tuple<", "int32", "str", "any", "obj", "bool", "float64", "unknown", "A", "b", "x1", "_", "0", "-1", "\n", "\n", " ", "\t", "é", "\x00"}
 
 func c18(c *wk.Ctx) {
-	c.Note("rule", "streams: roundtrip = packages of 1-3 generated meta-objects (methods with tuple parameter signatures and any return incl. v, signals and properties with tuple signatures; signatures from the grammar with structs shared between actions, nested tuples, template-style struct names, m o X; unique uids in 1..2^32-1; names = identifiers avoiding IDL keywords and basic-type prefixes): ParseIDL(GenerateIDL(m)) must give the same uids, names and signatures; edge = the same with names that start with a basic IDL type name, IDL keywords as names, or empty nested tuples; text = arbitrary text (random bytes, IDL token soup, mutated valid IDL, valid IDL cut anywhere and ending in the beginning of a comment) must yield a package or an error, never a panic. Distinct non-trivial = distinct generated IDL texts with at least one action (roundtrip) / distinct texts (text).")
+	c.Note("rule", "streams: roundtrip = packages of 1-3 generated meta-objects (methods with tuple parameter signatures and any return incl. v, signals and properties with tuple signatures; signatures from the grammar with structs shared between actions, nested tuples, template-style struct names, m o X; unique uids in 1..2^32-1; names = identifiers avoiding IDL keywords and basic-type prefixes): ParseIDL(GenerateIDL(m)) must give the same uids, names and signatures; wide = the same with one action of 120 .. 8000 parameters (one IDL line of 2 KiB .. 150 KiB); edge = the same with names that start with a basic IDL type name, IDL keywords as names, or empty nested tuples; text = arbitrary text (random bytes, IDL token soup, mutated valid IDL, valid IDL cut anywhere and ending in the beginning of a comment) must yield a package or an error, never a panic. Distinct non-trivial = distinct generated IDL texts with at least one action (roundtrip) / distinct texts (text).")
 	depth := c.Pick(3, 5)
 	c.Cases("roundtrip", c.Pick(5000, 200000), func(i int, rng *rand.Rand) {
 		g := genMetaPackage(rng, 1+rng.Intn(depth), nil)
@@ -240,6 +240,37 @@ func c18(c *wk.Ctx) {
 				idl.GenerateIDL(&buf, "pkg", g.metas)
 				c.Sample(map[string]interface{}{"stream": "roundtrip", "idl": buf.String()})
 			}
+		}
+	})
+	// wide: one action with hundreds to thousands of parameters (GenerateIDL prints an action on ONE line:
+	// lines of 2 KiB .. 150 KiB), next to ordinary actions
+	c.Cases("wide", c.Pick(24, 400), func(i int, rng *rand.Rand) {
+		g := genMetaPackage(rng, 1+rng.Intn(2), nil)
+		n := []int{120, 700, 3600, 6000, 8000}[i%5] + rng.Intn(50)
+		var sb strings.Builder
+		sb.WriteString("(")
+		scal := []string{"i", "I", "s", "b", "f", "d", "l", "L", "[s]", "{is}", "m"}
+		for k := 0; k < n; k++ {
+			sb.WriteString(scal[rng.Intn(len(scal))])
+		}
+		sb.WriteString(")")
+		for name, m := range g.metas {
+			u := uint32(0x7ffffff0 + i%7)
+			switch i % 3 {
+			case 0:
+				m.Methods[u] = object.MetaMethod{Uid: u, Name: "wideMethod", ParametersSignature: sb.String(), ReturnSignature: "v"}
+			case 1:
+				m.Signals[u] = object.MetaSignal{Uid: u, Name: "wideSignal", Signature: sb.String()}
+			default:
+				m.Methods[u] = object.MetaMethod{Uid: u, Name: "wideReturn", ParametersSignature: "()", ReturnSignature: sb.String()}
+			}
+			delete(m.Methods, 0) // (keeps the map non-nil)
+			g.metas[name] = m
+			break
+		}
+		if roundTripIDL(c, "wide", i, g, "wide/") {
+			c.Nontrivial(wk.Hash64("wide", i))
+			c.Count("wide_actions_parameters", int64(n))
 		}
 	})
 	c.Cases("edge", c.Pick(1500, 30000), func(i int, rng *rand.Rand) {
